@@ -90,6 +90,15 @@ func TestC07(t *testing.T) {
 						}
 					}
 				}
+				// one snapshot in three is written while 1..2 generated transactions commit (run by the hooks
+				// at a drawn point before the recorder closes): they travel in the snapshot's log tail, and the
+				// restored collection must equal the model INCLUDING them
+				remove := func() {}
+				if rapid.IntRange(0, 2).Draw(t, "transactions-during-the-snapshot") == 0 {
+					point := rapid.SampledFrom([]string{"snapshot:recorder-open", "snapshot:pre-chunk:0", "snapshot:pre-chunk:1", "snapshot:pre-close"}).Draw(t, "snapshot-point")
+					mc.logf("  with transactions at %s", point)
+					remove = mc.installTail(t, map[string]int{point: rapid.IntRange(1, 2).Draw(t, "n")}, cfg, func(string, *TxnEffect, bool) { mc.flag("snapshot-with-log-tail") })
+				}
 				var dst *column.Collection
 				if indexesBefore {
 					dst = mc.snapshotRestore(t, mc.C, capacity, mk)
@@ -97,6 +106,7 @@ func TestC07(t *testing.T) {
 					dst = mc.snapshotRestore(t, mc.C, capacity, nil)
 					mk(dst)
 				}
+				remove()
 				mc.CheckDerived(t, dst, "restored snapshot", restores%2 == 0)
 				// the original is untouched by taking a snapshot
 				mc.CheckDerived(t, mc.C, "original after Snapshot", restores%2 == 1)
